@@ -60,13 +60,19 @@ impl Report {
 pub fn hex(b: &[u8]) -> String { b.iter().map(|x| format!("{:02x}", x)).collect() }
 pub fn unhex(s: &str) -> Vec<u8> { (0..s.len() / 2).map(|i| u8::from_str_radix(&s[2 * i..2 * i + 2], 16).unwrap()).collect() }
 
-/// run a closure, turning a panic into Err(message)
+static LAST_PANIC_AT: std::sync::Mutex<String> = std::sync::Mutex::new(String::new());
+
+/// run a closure, turning a panic into Err(message at file:line)
 pub fn guarded<T>(f: impl FnOnce() -> T + std::panic::UnwindSafe) -> Result<T, String> {
     let prev = std::panic::take_hook();
-    std::panic::set_hook(Box::new(|_| {}));
+    std::panic::set_hook(Box::new(|info| {
+        if let Some(l) = info.location() { if let Ok(mut g) = LAST_PANIC_AT.lock() { *g = format!("{}:{}", l.file(), l.line()); } }
+    }));
     let r = std::panic::catch_unwind(f);
     std::panic::set_hook(prev);
     r.map_err(|e| {
-        if let Some(s) = e.downcast_ref::<String>() { s.clone() } else if let Some(s) = e.downcast_ref::<&str>() { s.to_string() } else { "panic".to_string() }
+        let msg = if let Some(s) = e.downcast_ref::<String>() { s.clone() } else if let Some(s) = e.downcast_ref::<&str>() { s.to_string() } else { "panic".to_string() };
+        let at = LAST_PANIC_AT.lock().map(|g| g.clone()).unwrap_or_default();
+        format!("{} at {}", msg, at)
     })
 }
